@@ -37,6 +37,7 @@ def jobs(tier):
     for fmt in (LOAD_FORMATS if tier == "thorough" else LOAD_FORMATS[:3]):
         out.append({"name": "loaded/%s" % fmt, "kind": "loaded", "fmt": fmt})
     out.append({"name": "tree-transfer", "kind": "transfer"})
+    out.append({"name": "methods-and-item-defaults", "kind": "extras"})
     return out
 
 
@@ -192,6 +193,132 @@ def _loaded_pairs(job, ctx):
     ctx.sample({"loaded_pairs": fmt, "mutations": [m[0] for m in mutations]})
 
 
+def _methods_and_item_defaults(job, ctx):
+    """(a) instance methods act on the configuration they are called through, whichever configuration of the schema was built
+    or used first; (b) a list of configurations whose declared default is a list of maps: building, mutating and resetting
+    configurations leaves that declared default (and trees handed to load_tree) as they were"""
+    import copy
+    import cincoconfig as cc
+    only = job.get("only")
+    case0 = {"kind": "extras", "jobparams_full": {k: v for k, v in job.items() if k not in ("single", "only")}, "job": job["name"]}
+
+    def bad(ident, what, msg):
+        ctx.violation("C13|%s" % what, msg, dict(case0, only=ident))
+    # ---- (a)
+    for where in ("root", "sub", "item", "ctype-item"):
+        for first_use in ("none", "call-on-earlier", "render-earlier"):
+            ident = ["methods", where, first_use]
+            if only is not None and only != ident:
+                continue
+            node = cc.Schema()
+            node.n = cc.IntField(default=0)
+            node.tags = cc.ListField(cc.StringField())
+            cc.instance_method(node, "bump")(lambda cfg, by=1: setattr(cfg, "n", cfg.n + by) or cfg.n)
+            cc.instance_method(node, "who")(lambda cfg: id(cfg))
+            cc.instance_method(node, "tag")(lambda cfg, t: (cfg.tags.append(t) if cfg.tags is not None else setattr(cfg, "tags", [t])))
+            s = cc.Schema()
+            if where == "root":
+                s = node
+            elif where == "sub":
+                s.sub = node
+            elif where == "item":
+                s.items = cc.ListField(node)
+            else:
+                T = cc.make_type(node, "NodeT")
+                s.items = cc.ListField(T)
+                s.more = cc.ListField(T)
+
+            def get(c, j=0):
+                if where == "root":
+                    return c
+                if where == "sub":
+                    return c.sub
+                return c.items[j]
+
+            def mk():
+                c = s()
+                if where in ("item", "ctype-item"):
+                    c.items = [{"n": 0}, {"n": 0}]
+                    if where == "ctype-item":
+                        c.more = [{"n": 0}]
+                return c
+            ctx.transitions += 1
+            try:
+                early = mk()
+                if first_use == "call-on-earlier":
+                    get(early).bump()
+                    get(early).who()
+                elif first_use == "render-earlier":
+                    early.to_tree()
+                a, b = mk(), mk()
+                n_early = get(early).n
+                r = get(b).bump(5)
+                get(b).tag("x")
+                facts = {"b.n": get(b).n, "a.n": get(a).n, "early.n": get(early).n, "ret": r, "who-b": get(b).who() == id(get(b)), "who-a": get(a).who() == id(get(a)),
+                         "b.tags": list(get(b).tags or []), "a.tags": list(get(a).tags or [])}
+                if where in ("item", "ctype-item"):
+                    get(b, 1).bump(2)
+                    facts["b.items[1].n"] = get(b, 1).n
+                    facts["b.items[0].n"] = get(b, 0).n
+                want = {"b.n": 5, "a.n": 0, "early.n": n_early, "ret": 5, "who-b": True, "who-a": True, "b.tags": ["x"], "a.tags": []}
+                if where in ("item", "ctype-item"):
+                    want.update({"b.items[1].n": 2, "b.items[0].n": 5})
+            except Exception as exc:  # noqa
+                ctx.case(tuple(ident), "methods:raises", True)
+                bad(ident, "methods|%s|raises" % where, "instance methods on configurations of one schema (%s, %s) raised %r" % (where, first_use, exc))
+                continue
+            ctx.case(tuple(ident), "methods:%s:%s" % (where, first_use), True)
+            if facts != want:
+                diff = {k: (facts[k], want[k]) for k in want if facts[k] != want[k]}
+                bad(ident, "methods|%s|acts-on-other-configuration" % where,
+                    "three configurations of one schema (%s, first use: %s); calling the methods through the third gave (got, expected) %s" % (where, first_use, diff))
+    # ---- (b)
+    for variant in ("bytes-in-item", "typed-list-in-item", "same-tree-twice"):
+        ident = ["item-defaults", variant]
+        if only is not None and only != ident:
+            continue
+        item = cc.Schema()
+        item.c = cc.IntField()
+        item.tok = cc.BytesField(encoding="hex")
+        item.tags = cc.ListField(cc.IntField())
+        declared = [{"c": 1, "tok": "dead", "tags": [1, 2]}, {"c": 2}]
+        s = cc.Schema()
+        s.nodes = cc.ListField(item, default=copy.deepcopy(declared))
+        s.plain = cc.IntField(default=1)
+        ctx.transitions += 1
+        try:
+            first = s()
+            second = s()
+            snap_first = V.canon(cc.asdict(first))
+            second.nodes[0].tags.append(9)
+            second.nodes[0].c = 7
+            third = s()
+            cc.reset_value(second, "nodes")
+            tree = {"nodes": [{"c": 5, "tok": "beef", "tags": [3]}], "plain": 2}
+            tree0 = copy.deepcopy(tree)
+            x, y = s(), s()
+            x.load_tree(tree)
+            y.load_tree(tree)
+            x.nodes[0].c = 6
+            x.nodes[0].tags.append(4)
+        except Exception as exc:  # noqa
+            ctx.case(tuple(ident), "item-defaults:raises", True)
+            bad(ident, "item-defaults|raises", "building / mutating configurations whose list of configurations has a declared default raised %r" % (exc,))
+            continue
+        ctx.case(tuple(ident), "item-defaults:%s" % variant, True)
+        if V.canon(s._fields["nodes"]._default) != V.canon(declared):
+            bad(ident, "item-defaults|declared-default-changed", "the declared default of the list field is now %s" % V.show(s._fields["nodes"]._default, 120))
+        if V.canon(cc.asdict(first)) != snap_first:
+            bad(ident, "item-defaults|other-changed", "mutating the second configuration changed the first")
+        if V.canon(cc.asdict(third)) != snap_first or V.canon(cc.asdict(second)) != snap_first:
+            bad(ident, "item-defaults|later-or-reset-polluted", "a configuration built later (or the reset one) differs from a fresh one: %s" % V.show(cc.asdict(third), 120))
+        if V.canon(tree) != V.canon(tree0):
+            bad(ident, "item-defaults|input-tree-mutated", "load_tree changed the tree it was given: %s" % V.show(tree, 120))
+        if y.nodes[0].c != 5 or list(y.nodes[0].tags) != [3]:
+            bad(ident, "item-defaults|tree-loaded-twice-shared", "one tree loaded into two configurations: an assignment through one shows in the other (%r, %r)" % (y.nodes[0].c, list(y.nodes[0].tags)))
+    ctx.sample({"extras": ["instance methods", "defaults of lists of configurations"]})
+
+
 def _tree_transfer(job, ctx):
     """values travel from A to B as a Python tree (`b.load_tree(a.to_tree())`, `schema(**a.to_tree())`); afterwards an in-place
     mutation of a container *value itself* (not of objects nested inside an untyped value) on either side must not show
@@ -240,6 +367,11 @@ def _tree_transfer(job, ctx):
 
 def run_job(job, ctx):
     single = job.get("single")
+    if single and single.get("kind") == "extras":
+        j = dict(single["jobparams_full"]); j["only"] = single["only"]
+        return _methods_and_item_defaults(j, ctx)
+    if job.get("kind") == "extras":
+        return _methods_and_item_defaults(job, ctx)
     if single and single.get("kind") == "transfer":
         j = dict(single["jobparams_full"]); j["only"] = single["only"]
         return _tree_transfer(j, ctx)
